@@ -16,6 +16,7 @@ tree, every request, every continuation — no size bound.
 import CaddyModel.C05.Lemmas
 import CaddyModel.C05.Witness
 import CaddyModel.C05.AdaptProps
+import CaddyModel.C05.ProvisionProps
 
 namespace CaddyModel.C05
 
